@@ -1108,6 +1108,14 @@ func init() {
 		in.stats.stubsUsed["(s1.Angle).E7 inverts Angle(int32)*s1.E7 exactly"]++
 		return fromTerm(mkExtract(31, 0, f.t)), true
 	}
+	// protobuf scalar helpers: proto.String(v) etc. return a pointer to a copy
+	for _, n := range []string{"String", "Bool", "Int32", "Int64", "Uint32", "Uint64", "Float32", "Float64"} {
+		intrinsics["google.golang.org/protobuf/proto."+n] = func(in *Interp, c *frame, fn *ssa.Function, a []value) (value, bool) {
+			cell := new(value)
+			*cell = a[0]
+			return cell, true
+		}
+	}
 	intrinsics["time.Now"] = func(in *Interp, c *frame, fn *ssa.Function, a []value) (value, bool) {
 		return zero(fn.Signature.Results().At(0).Type()), true
 	}
